@@ -1163,7 +1163,8 @@ class CallsMixin:
         epoch = self.p.heap_epoch if (reads_heap and c.reads is None) else 0
         arg_terms = [t for b in bound.values() for t in b.terms]
         res = V(c.returns, [
-            self.p.ctx.ufunc('pure!%s!e%d!%d' % (c.name, epoch, i), *([t.sort() for t in arg_terms] + [srt]))(*arg_terms)
+            self.p.ctx.ufunc('pure!%s!e%d!%d!%s' % (c.name, epoch, i, '_'.join(str(t.sort()) for t in arg_terms)),
+                             *([t.sort() for t in arg_terms] + [srt]))(*arg_terms)
             if arg_terms else z3.Const('pure!%s!%d' % (c.name, i), srt)
             for i, srt in enumerate(c.returns.leaf_sorts())])
         return res, epoch
